@@ -22,7 +22,11 @@ GEN_FILES = ["BiotiteModel/Gen/C08.lean"]
 RULE = ("seeded sequence pairs (length 0-7, quick; up to 12 thorough) over alphabets of 2-5 used symbols (as offset blocks of large alphabets: code VALUES straddle 255/256 and 65535/65536, first and second sequence), code widths "
         "uint8/16/32/64 and two different alphabets, int matrices in [-6,6] (any sign, asymmetric, match/mismatch, "
         "constant), linear gaps 0..-5 and affine (open, ext) incl. open<ext and zeros, global / semi-global / local, "
-        "max_number 1..50.  align_optimal's score and every returned trace go through the Lean model (optimum from "
+        "max_number 1..50; the matrix is built from different spellings of the same numbers (ndarray int16/32/64, Fortran, strided, "
+        "read-only, dict, dict over ONE alphabet with asymmetric scores, NCBI string).  Oracle-only hardening streams: object "
+        "reuse / refused calls / argument spellings / defaults (reuse), as_positional, align_ungapped, Alignment API, "
+        "database matrices on protein / nucleotide sequences; real code runs in forked children (crash = verdict).  "
+        "align_optimal's score and every returned trace go through the Lean model (optimum from "
         "the table model, verified checker on each trace, model of the trace count, for linear global/semi-global "
         "membership of every real trace in the traceback model followLin) and random valid alignments "
         "are rescored by align.score() vs the model's scorePub.  Oracle: exhaustive enumeration of all alignments "
